@@ -20,10 +20,11 @@ import (
 )
 
 type nOp struct {
-	kind string // put del del2 delnode get snap close stop
+	kind string // put del del2 delnode get snap close chain stop
 	w    int
 	k, v string
 	h    int
+	h2   int
 	arg  string // oldest | newest
 }
 
@@ -43,6 +44,8 @@ func (o nOp) String() string {
 		return "NewSnapshot"
 	case "close":
 		return "Close(" + o.arg + ")"
+	case "chain":
+		return fmt.Sprintf("NodeList: h%d.SetLink(h%d)", o.h, o.h2)
 	}
 	return o.kind
 }
@@ -116,6 +119,18 @@ func seqOps(e *nEnv, sc *seqCfg, phys []physVer) []nOp {
 			}
 		}
 	}
+	// user-level chaining of live nodes through the node's link field (what NodeList.Add does); the
+	// link field is shared with nitro's garbage lists, so only live, linked versions may be chained
+	if e.cfg.mm && (sc.prop == "C07" || sc.prop == "C04") {
+		for i := 0; i < len(e.handles) && i < 2; i++ {
+			for j := 0; j < len(e.handles) && j < 3; j++ {
+				hi, hj := e.handles[i], e.handles[j]
+				if i != j && linked[hi.node] && linked[hj.node] && !hi.ver.removed && !hj.ver.removed && hi.ver.dead == 0 && hj.ver.dead == 0 && hi.node.GetLink() == nil && hj.node.GetLink() == nil {
+					ops = append(ops, nOp{kind: "chain", h: i, h2: j})
+				}
+			}
+		}
+	}
 	ops = append(ops, nOp{kind: "stop"})
 	return ops
 }
@@ -157,7 +172,18 @@ func (e *nEnv) stateKey(phys []physVer) string {
 		linked[p.node] = true
 	}
 	for _, h := range e.handles {
-		fmt.Fprintf(&sb, "h%d:%v,", h.ver.id, linked[h.node])
+		l := -1
+		if linked[h.node] {
+			if ln := h.node.GetLink(); ln != nil {
+				l = -2
+				for _, h2 := range e.handles {
+					if h2.node == ln {
+						l = h2.ver.id
+					}
+				}
+			}
+		}
+		fmt.Fprintf(&sb, "h%d:%v:%d,", h.ver.id, linked[h.node], l)
 	}
 	sb.WriteString("|" + strings.Join(strings.Fields(e.db.DumpStats()), ""))
 	return sb.String()
@@ -229,6 +255,8 @@ func (e *nEnv) apply(op nOp, sc *seqCfg) string {
 				return fmt.Sprintf("new snapshot (epoch %d) scans %s, the reference set is %s", sn, showAll(got), showAll(content))
 			}
 		}
+	case "chain":
+		e.handles[op.h].node.SetLink(e.handles[op.h2].node)
 	case "close":
 		var t *openSnap
 		for _, s := range e.snaps {
